@@ -18,15 +18,19 @@ from . import ser_common as sc
 LEVEL = "proof"
 MANIFEST_ENTRY = {
     "category": "proof",
-    "text": "Lean 4 theorems over the serializer model with skip lists: skipping names at save time loads exactly the stripped graph (every attribute-nested level), skipping at load time equals skipping at save time, recorded lists are honoured without being repeated, type skipping at save time removes exactly the instances and the recorded type list removes nothing more at load (`skip_types_at_save`), absent names are no-ops, survivors load as without skipping. Tied to the code by differential runs of generated attribute-nested graphs with random name/type lists in the three call shapes (save / load / both) on both stores; the five clauses are evaluated on the real results with an independent strip oracle.",
-    "note": "Trusted: as C01; isinstance/exact-type tests are modelled by a finite subtype relation on the type universe the generator uses; persisted type names must be importable top-level classes (load resolves them with __import__).",
-    "technique": "Lean 4 proof (structural induction) + model-vs-implementation correspondence",
+    "text": "Lean 4 theorems over the serializer model with skip lists. One statement covers all clauses (`skip_general`): for every isinstance relation that contains the loader's exact-type match (the generator's universe, or the one with abstract base classes whose instances are virtual subclasses, and `object`), names and types given at save time and names given at load time, the loaded object is exactly the graph with every attribute removed, at every attribute-nested level, whose name is listed at either time or which is an instance of a listed type; the recorded lists are what the loader merges in, everything else loads as without skipping. Corollaries: load-time = save-time names also next to types (`skip_load_eq_save_general`), both = once, order/multiplicity irrelevant. The `skip` argument forms (bare name / bare type / sequence, entries that are neither) and the list Ptychography.save composes are modelled (`normSkip_*`, `ptychoSkip_spec`). Exception safety: a save raises part-way exactly when the stripped graph still holds an unpicklable value (`raises_iff_stripped`), a raising or rejected call changes no target (`sstep_raised_noop`), and over EVERY history of save/load calls on live objects (failing calls before and in between included) a load returns the stripped graph of the last completed save (`skip_history`). The round-1..4 theorems (names / types / load=save / recorded lists / absent names) are kept. Tied to the code by differential runs: generated attribute-nested graphs with random name/type lists in the call shapes save / load / both / mixed on both stores, classes that themselves provide names, abstract-base-class type lists, unpicklable attributes, load-time type lists, call histories with rejected and failing saves, the recorded skip lists and the keys written per object group (stored tree) as an internal stage, Ptychography.save histories on one live object; the clauses are evaluated on the real results with Python's own isinstance on the live object as oracle.",
+    "note": "Trusted: as C01; isinstance is modelled by a finite relation on the generator's type universe (base classes + 9 abstract base classes), cross-checked against Python's isinstance on every case; persisted type names must be importable top-level classes (load resolves them with __import__). Measured only (correspondence, no theorem): load-time TYPE lists (the property does not state them; `load_rng_type_counterexample` records where the base model differed from the code), the stored tree / recorded lists, that the caller's skip argument is not modified in place, Ptychography.save's device move and _dataset_metadata bookkeeping. A change that writes skipped data into the file but hides it again through the recorded lists at load is reported as a broken tie without a failing input (the property speaks about loaded objects only).",
+    "technique": "Lean 4 proof (structural induction, invariant over call histories) + model-vs-implementation correspondence",
 }
 RULE = ("attribute-nested object graphs (objects only reached through attributes) with random subsets of attribute names (present at any "
-        "depth or absent) and random type lists, in three call shapes; one evaluation = one save+load; distinct non-trivial = distinct "
-        "(call shape, #names hit, #types, depth, multiset of kinds) with at least one attribute actually removed")
-TRUSTED = ["as C01", "finite subtype relation for isinstance on the generator's type universe"]
-ASSUMPTIONS = ["objects nested inside lists/dicts are outside the claim (the property quantifies over attribute-nested objects)"]
+        "depth, absent, or provided by the class) and random type lists (concrete, abstract base classes, object), in the call shapes save / load / both / mixed; "
+        "one evaluation = one save+load, or one call of a history; distinct non-trivial = distinct (call shape, #names hit, types, depth, multiset of kinds) "
+        "with at least one attribute actually removed, plus distinct (history length, outcome pattern) of call histories")
+TRUSTED = ["as C01", "finite isinstance relation on the generator's type universe (cross-checked against Python's isinstance on the live objects every run)",
+           "an attribute that cannot be pickled is represented by one token (`unpicklable`); which exception type dill raises is compared by name only"]
+ASSUMPTIONS = ["objects nested inside lists/dicts are outside the claim (the property quantifies over attribute-nested objects)",
+               "objects that are both torch.nn.Module and AutoSerialize are outside the model (recorded finding hybrid-module-autoserialize-skip)",
+               "skip arguments are re-iterable collections (list / tuple) or a bare str / type, as the signature declares; one-shot iterators are not drawn"]
 EXPLANATION = "see MANIFEST level text"
 
 TYPES = {
@@ -307,6 +311,10 @@ def ptycho_stream(ctx, drv=None):
         path = os.path.join(base, "p.zip" if store == "zip" else "pdir")
         # every form the `skip: str | type | Sequence[str | type]` argument accepts
         form = rng.choice(["list", "tuple", "bare"])
+        if j < 4:
+            # fixed head of the history (whatever the seed): list + default mode (re-used for a raw save right after),
+            # tuple + raw data, bare entry, list + raw data (re-used for a default save right after)
+            form, raw = [("list", False), ("tuple", True), ("bare", False), ("list", True)][j]
         if form == "bare":
             if tname and rng.chance(0.5):
                 names = []
@@ -331,6 +339,7 @@ def ptycho_stream(ctx, drv=None):
             except Exception as e:  # noqa
                 ctx.disagree("ptycho-rejected-call", case, "ValueError", type(e).__name__ + ":" + str(e)[:100])
         recorded = None
+        arg_before = repr(skip_arg)
         try:
             with contextlib.redirect_stdout(io.StringIO()):
                 if j % 3 == 2:
@@ -341,9 +350,8 @@ def ptycho_stream(ctx, drv=None):
                 back = serialize.load(path)
         except Exception as e:  # noqa
             ctx.pred_fail(f"ptycho-save-raises:{type(e).__name__}", "Ptychography.save/load with skip raised", case, observed=str(e)[:200], required="ok")
-            continue
-        finally:
             shutil.rmtree(base, ignore_errors=True)
+            continue
         if drv is not None and recorded is not None:
             arg = ({"bare_name": names[0]} if names else {"bare_type": tname}) if form == "bare" else \
                 {"seq": [["n", k] for k in names] + ([["t", tname]] if tname else [])}
@@ -352,6 +360,28 @@ def ptycho_stream(ctx, drv=None):
             rr = {"names": sorted(set(recorded["names"])), "types": recorded["types"]}
             if mm != rr:
                 ctx.disagree("ptycho-recorded-lists", case, mm, rr, note="skip lists recorded in the file vs normSkip (ptychoSkipArg …)")
+        if repr(skip_arg) != arg_before:
+            ctx.disagree("skip-argument-mutated", case, arg_before, repr(skip_arg), note="Ptychography.save changed the caller's skip argument in place")
+        if form == "list" and (j % 2 == 0 or j < 4):
+            # the caller re-uses ITS list object for the next save, with the other save_raw_data: the second file
+            # must follow the list as the caller wrote it
+            ctx.count()
+            try:
+                with contextlib.redirect_stdout(io.StringIO()):
+                    prob.save(path, mode="o", store=store, skip=skip_arg, save_raw_data=not raw, verbose=False)
+                    back2 = serialize.load(path)
+                have2 = set(vars(back2))
+                if (not raw) and "_dset" not in have2:
+                    ctx.pred_fail("ptycho-dset-dropped", "save_raw_data=True dropped the dataset when the caller re-used the skip list of an earlier save", dict(case, reuse=True),
+                                  observed="absent", required="present")
+                if raw and ("_dset" in have2 or "dset" in have2):
+                    ctx.pred_fail("ptycho-dset-kept", "default Ptychography.save kept the raw dataset", dict(case, reuse=True), observed="present", required="absent")
+                for k in names:
+                    if k in have2:
+                        ctx.pred_fail("ptycho-skip-name", f"Ptychography.save(skip=[{k!r}]) did not remove the attribute (re-used list)", dict(case, reuse=True), observed="present", required="absent")
+                ctx.dist["ptycho:list-object-reused"] += 1
+            except Exception as e:  # noqa
+                ctx.pred_fail(f"ptycho-save-raises:{type(e).__name__}", "Ptychography.save/load with a re-used skip list raised", dict(case, reuse=True), observed=str(e)[:200], required="ok")
         have = set(vars(back))
         for k in names:
             if k in have:
@@ -368,6 +398,7 @@ def ptycho_stream(ctx, drv=None):
             v = vars(prob)[k]
             if k not in names and not (tname and isinstance(v, tmap[tname])) and k not in have and v is not None:
                 ctx.pred_fail("ptycho-survivor-lost", f"attribute {k} not named in skip is missing", case, observed="absent", required="present")
+        shutil.rmtree(base, ignore_errors=True)
         ctx.mark(("ptycho", len(names), tname, raw, store, form))
         ctx.dist[f"ptycho:skip-form={form}"] += 1
         ctx.dist[f"ptycho:raw={raw}:{store}"] += 1
@@ -430,6 +461,7 @@ def run_real_x(obj, store, py_save, py_load, tag, want_summary=True):
     os.makedirs(base)
     path = os.path.join(base, "o.zip" if store == "zip" else "odir")
     out = {}
+    args_before = (repr(py_save), repr(py_load))
     try:
         with cx.quiet():
             try:
@@ -448,6 +480,8 @@ def run_real_x(obj, store, py_save, py_load, tag, want_summary=True):
                 out["load_msg"] = str(e)[:150]
         return out
     finally:
+        if (repr(py_save), repr(py_load)) != args_before:
+            out["args_mutated"] = [args_before, (repr(py_save), repr(py_load))]
         shutil.rmtree(base, ignore_errors=True)
 
 
@@ -464,6 +498,8 @@ def check_case_x(ctx, drv, recipe, save_arg, load_arg, store, idx, form="list"):
     m_save_err = m["err"].split(":", 1)[1] if str(m.get("err", "")).startswith("save:") else None
     if (m_save_err or None) != r.get("save_err"):
         ctx.disagree("x-save-outcome", case, {"save_err": m_save_err}, {"save_err": r.get("save_err"), "msg": r.get("save_msg")})
+    if "args_mutated" in r:
+        ctx.disagree("skip-argument-mutated", case, r["args_mutated"][0], r["args_mutated"][1], note="save()/load() changed the caller's skip argument in place")
     if r.get("save_err") and r.get("leftover"):
         ctx.disagree("x-failed-save-leaves-files", case, [], r["leftover"])
     if "stored" in r and "stored" in m:
@@ -512,7 +548,7 @@ def check_case_x(ctx, drv, recipe, save_arg, load_arg, store, idx, form="list"):
 def ext_stream(ctx, drv):
     """classes that provide names themselves, abstract base classes / `object` as skip types, the call
     forms of `skip`, load-time type skipping, an unpicklable attribute that is or is not skipped"""
-    n = ctx.n(130, 1300)
+    n = ctx.n(110, 700)
     for i in range(n):
         rng = ctx.rng.fork(50000 + i)
         recipe = gen_tree(rng, rng.weighted([(0, 1), (1, 3), (2, 4), (3, 2)]), XCLASSES, XPOOL)
@@ -679,7 +715,7 @@ def run_history(ctx, drv, pool_recipes, ops, store, idx):
 
 
 def history_stream(ctx, drv):
-    n = ctx.n(45, 450)
+    n = ctx.n(36, 220)
     for i in range(n):
         rng = ctx.rng.fork(70000 + i)
         store = rng.choice(["zip", "dir"])
